@@ -31,7 +31,9 @@ import (
 	"github.com/idena-network/idena-go/common"
 	"github.com/idena-network/idena-go/core/state"
 	"github.com/idena-network/idena-go/crypto"
+	"github.com/idena-network/idena-go/vm"
 	"github.com/idena-network/idena-go/vm/embedded"
+	"github.com/idena-network/idena-go/vm/wasm"
 	"github.com/idena-network/idena-go/vm/wasm/testdata"
 
 	dbm "github.com/tendermint/tm-db"
@@ -115,6 +117,9 @@ var embeddedHash = map[string]common.Hash{
 //	relay(addr, amount)           create_call_function_promise(addr, "ping", <no args>, amount, gas)
 //	relayboom(addr, amount)       create_call_function_promise(addr, "boom", <no args>, amount, gas)
 //	hop_()                        create_call_function_promise(caller(), "ping", <no args>, 0, gas)
+//	spawn(nonce, amount)          create_deploy_contract_promise(own_code(), <no args>, nonce, amount, gas)   (sub-deployment)
+//	spawnlow(nonce, amount)       the same with less gas than a deployment costs (the sub-deployment fails)
+//	payspawn(nonce, amount)       create_transfer_promise(contract_addr(own_code(), <no args>, nonce), amount); then spawn
 //	relayhop(addr, amount)        create_call_function_promise(addr, "hop_", <no args>, amount, gas)   (nesting depth 2)
 func payerCode() []byte {
 	const (
@@ -130,6 +135,9 @@ func payerCode() []byte {
 		fSet      = 2
 		fCall     = 3
 		fCaller   = 4
+		fOwnCode  = 5
+		fDeploy   = 6
+		fAddr     = 7
 	)
 	// constant regions {offset, capacity, length} (little endian) and their bytes
 	le := func(v uint32) []byte { return []byte{byte(v), byte(v >> 8), byte(v >> 16), byte(v >> 24)} }
@@ -154,14 +162,20 @@ func payerCode() []byte {
 		return wasmgen.Cat(wasmgen.LocalGet(0), wasmgen.I32Const(method), wasmgen.I32Const(rNoArgs), wasmgen.LocalGet(1),
 			wasmgen.I32Const(gas), wasmgen.Call(fCall), wasmgen.Drop)
 	}
+	// spawn(nonce, amount): create_deploy_contract_promise(own_code(), <no args>, nonce, amount, gas)
+	spawn := func(gas int32) []byte {
+		return wasmgen.Cat(wasmgen.Call(fOwnCode), wasmgen.I32Const(rNoArgs), wasmgen.LocalGet(0), wasmgen.LocalGet(1),
+			wasmgen.I32Const(gas), wasmgen.Call(fDeploy), wasmgen.Drop)
+	}
 	i32 := byte(wasmgen.I32)
 	m := &wasmgen.Module{
 		Types: []wasmgen.FuncType{{Params: []byte{i32}, Results: []byte{i32}}, {},
 			{Params: []byte{i32, i32}}, {Params: []byte{i32}}, {Params: []byte{i32, i32, i32, i32, i32}, Results: []byte{i32}},
-			{Results: []byte{i32}}},
+			{Results: []byte{i32}}, {Params: []byte{i32, i32, i32}, Results: []byte{i32}}},
 		Imports: []wasmgen.Import{{Module: "env", Name: "create_transfer_promise", Type: t2}, {Module: "env", Name: "burn", Type: t1},
 			{Module: "env", Name: "set_storage", Type: t2}, {Module: "env", Name: "create_call_function_promise", Type: t5},
-			{Module: "env", Name: "caller", Type: 5}},
+			{Module: "env", Name: "caller", Type: 5}, {Module: "env", Name: "own_code", Type: 5},
+			{Module: "env", Name: "create_deploy_contract_promise", Type: t5}, {Module: "env", Name: "contract_addr", Type: 6}},
 		Funcs: []wasmgen.Func{
 			{Type: tAlloc, Locals: 1, Body: wasmgen.Allocate(), Export: "allocate"},
 			{Type: tVoid, Export: "deploy"},
@@ -180,6 +194,15 @@ func payerCode() []byte {
 			{Type: tVoid, Export: "hop_", Body: wasmgen.Cat(wasmgen.Call(fCaller), wasmgen.I32Const(rPing), wasmgen.I32Const(rNoArgs),
 				wasmgen.I32Const(rZero), wasmgen.I32Const(300000), wasmgen.Call(fCall), wasmgen.Drop)},
 			{Type: t2, Export: "relayhop", Body: call(rHop, 1200000)},
+			// sub-deployments: the contract deploys its own code (a further instance) through a deploy promise
+			{Type: t2, Export: "spawn", Body: spawn(4500000)},
+			{Type: t2, Export: "spawnlow", Body: spawn(1000000)}, // less gas than a deployment costs: the sub-deployment fails
+			// pays the address it is about to create, then creates it - within ONE transaction
+			{Type: t2, Export: "payspawn", Locals: 1, Body: wasmgen.Cat(
+				wasmgen.Call(fOwnCode), wasmgen.LocalSet(2),
+				wasmgen.LocalGet(2), wasmgen.I32Const(rNoArgs), wasmgen.LocalGet(0), wasmgen.Call(fAddr), wasmgen.LocalGet(1), wasmgen.Call(fTransfer),
+				wasmgen.LocalGet(2), wasmgen.I32Const(rNoArgs), wasmgen.LocalGet(0), wasmgen.LocalGet(1), wasmgen.I32Const(4500000),
+				wasmgen.Call(fDeploy), wasmgen.Drop)},
 		},
 		Data: data, DataAt: base, Bump: 8192,
 	}
@@ -215,6 +238,7 @@ type Inst struct {
 	AuxEmb   common.Address // an embedded contract every world has (refundable lock: anybody may deposit)
 	AuxWasm  common.Address // a wasm contract every world has (payer)
 	Salt     []byte
+	Seq      uint32           // number of the current operation (nonce of sub-deployments)
 	Known    []common.Address // every contract address this scenario touched (for store projection)
 }
 
@@ -459,6 +483,10 @@ func (x *Exec) validArgs(s *State, kind, m string, v int) [][]byte {
 		return [][]byte{w.Addrs[kR1].Bytes(), pick(big.NewInt(100).Bytes(), big.NewInt(1).Bytes(), overAmount.Bytes())}
 	case "payer.relay", "payer.relayboom", "payer.relayhop":
 		return [][]byte{pick(s.I.Inc.Bytes(), s.I.Inc.Bytes(), s.I.Inc.Bytes()), pick(part.Bytes(), []byte{}, new(big.Int).Add(bal, common.DnaBase).Bytes())}
+	case "payer.spawn", "payer.spawnlow", "payer.payspawn":
+		// (nonce of the sub-deployment, pay amount); variant 2 re-uses one nonce: the second time the address exists
+		return [][]byte{pick(append(u32(s.I.Seq), 0x5e), []byte("same nonce"), append(u32(s.I.Seq), 0x5e)),
+			pick(part.Bytes(), []byte{}, new(big.Int).Add(bal, common.DnaBase).Bytes())}
 	case "payer.pay", "payer.payfail", "payer.paytwice":
 		two := new(big.Int).Div(new(big.Int).Mul(bal, big.NewInt(2)), big.NewInt(3))
 		return [][]byte{rcpt(kR1), pick(part.Bytes(), two.Bytes(), new(big.Int).Add(bal, common.DnaBase).Bytes())}
@@ -614,7 +642,7 @@ func (x *Exec) priceTx(n *sim.Node, spec *sim.TxSpec, g uint64) *types.Transacti
 
 // wasmHeadroom: a wasm run reserves the gas limits of the promises it creates on top of what it uses
 // itself (the dry run only reports the latter).
-const wasmHeadroom = 16000
+const wasmHeadroom = 70000
 
 func (x *Exec) gasFor(class string, need uint64) uint64 {
 	switch class {
@@ -667,14 +695,15 @@ type reqJ struct {
 }
 
 type shJ struct {
-	Ran    bool        `json:"ran"`
-	Ok     bool        `json:"ok"`
-	Writes [][3]string `json:"writes"` // contract, key digest, value digest ("" = removal)
-	Keep   []string    `json:"keep"`
-	Moved  []int       `json:"moved"`
-	Req    []reqJ      `json:"req"`
-	Dest   string      `json:"dest"`
-	Err    string      `json:"err"`
+	Ran      bool        `json:"ran"`
+	Ok       bool        `json:"ok"`
+	Writes   [][3]string `json:"writes"` // contract, key digest, value digest ("" = removal)
+	Keep     []string    `json:"keep"`
+	Moved    []int       `json:"moved"`
+	Req      []reqJ      `json:"req"`
+	Deployed []string    `json:"deployed"` // wasm: sub-deployments the contract code asked for (committed by the runtime)
+	Dest     string      `json:"dest"`
+	Err      string      `json:"err"`
 }
 
 type effJ struct {
@@ -710,7 +739,7 @@ func nz(x []int) []int {
 
 func (x *Exec) effOf(c *sim.TxCapture, sh sim.ShadowResult, wsh sim.WasmShadowResult, target common.Address) effJ {
 	e := effJ{Req: []reqJ{}, Burnt: nz(sim.Limbs(c.Burnt)), Term: nz(sim.Limbs(c.Term)), Deployed: []string{}, Commits: c.Commit,
-		Sh: shJ{Writes: [][3]string{}, Keep: []string{}, Moved: []int{}, Req: []reqJ{}}}
+		Sh: shJ{Writes: [][3]string{}, Keep: []string{}, Moved: []int{}, Req: []reqJ{}, Deployed: []string{}}}
 	for a, v := range c.Requested() {
 		e.Req = append(e.Req, reqJ{A: x.W.Name(a), V: nz(sim.Limbs(v)), B: []int{}})
 	}
@@ -742,6 +771,9 @@ func (x *Exec) effOf(c *sim.TxCapture, sh sim.ShadowResult, wsh sim.WasmShadowRe
 		}
 		for _, w := range wsh.Writes {
 			e.Sh.Writes = append(e.Sh.Writes, [3]string{x.W.Name(w.A), w.K, w.V})
+		}
+		for _, a := range wsh.Deployed {
+			e.Sh.Deployed = append(e.Sh.Deployed, x.W.Name(a))
 		}
 	}
 	return e
@@ -785,7 +817,13 @@ func (x *Exec) run(s *State, kind string, op Op, caseID int, step int) bool {
 	}
 	from := x.sender(s, op)
 	nonce := n.App.State.GetNonce(x.W.Addrs[from]) + 1
+	s.I.Seq++
 
+	// "pf-block" | "pf-mid" | "pf-mid-emb": the address the operation is about to create already holds coins
+	pf := ""
+	if strings.HasPrefix(op.Pair, "pf-") {
+		pf = strings.TrimPrefix(op.Pair, "pf-")
+	}
 	// sandwich blocks: "sw-<mid>-<tail>"
 	mid, tail := "", ""
 	if strings.HasPrefix(op.Pair, "sw-") {
@@ -810,6 +848,32 @@ func (x *Exec) run(s *State, kind string, op Op, caseID int, step int) bool {
 		need = rc.GasUsed
 	}
 	_, mainEmb := embeddedHash[kind]
+	var prefund *types.Transaction
+	if pf != "" {
+		future := x.futureAddr(s, kind, op, x.W.Tx(*probe))
+		if future == nil {
+			pf = ""
+		} else {
+			s.I.know(*future)
+			prefund = x.W.Tx(sim.TxSpec{From: kFunder, To: future, Type: types.SendTx, Amount: sim.Dna(5, 1), MaxFee: sim.Dna(10, 1),
+				Nonce: n.App.State.GetNonce(x.W.Addrs[kFunder]) + 1})
+		}
+	}
+	switch pf {
+	case "block": // funded by a plain transfer in an earlier block
+		if err := n.Pool.AddExternalTxs(validation.InboundTx, prefund); err != nil {
+			panic("pre-funding refused: " + err.Error())
+		}
+		if err := n.Add(sim.Encode(n.Propose(20))); err != nil {
+			panic(err)
+		}
+		s.Last = nil
+		x.Stats["prefunded_earlier_block"]++
+	case "mid": // funded in the same block, just before the transaction
+		tail = "pfonly"
+	case "mid-emb":
+		mid, tail = "none", "emb"
+	}
 
 	// the transactions of the block, in block order
 	var plan []planned
@@ -845,6 +909,10 @@ func (x *Exec) run(s *State, kind string, op Op, caseID int, step int) bool {
 		role = "first"
 	} else if len(plan) > 0 {
 		role = "tail"
+	}
+	if pf == "mid" || pf == "mid-emb" {
+		plan = append(plan, planned{tx: prefund, plain: true, role: "mid"})
+		x.Stats["prefunded_same_block"]++
 	}
 	plan = append(plan, planned{tx: x.priceTx(n, spec, g), kind: kind, role: role})
 	nonce++
@@ -1027,6 +1095,9 @@ func (x *Exec) run(s *State, kind string, op Op, caseID int, step int) bool {
 			for _, w := range wsh.Writes {
 				s.I.know(w.A)
 			}
+			for _, a := range wsh.Deployed {
+				s.I.know(a)
+			}
 			if wsh.Ran && wsh.GasUsed != rc.GasUsed {
 				x.Stats["wasm_shadow_gas_differs"]++
 			}
@@ -1041,7 +1112,7 @@ func (x *Exec) run(s *State, kind string, op Op, caseID int, step int) bool {
 				errText = errText[:120]
 			}
 		}
-		line := tr.M{"ev": "Tx", "id": caseID, "step": step, "c": plan[i].kind, "mainc": kind, "op": op, "role": plan[i].role, "tx": t,
+		line := tr.M{"ev": "Tx", "id": caseID, "step": step, "c": plan[i].kind, "mainc": kind, "op": op, "role": plan[i].role, "prefunded": pf != "", "tx": t,
 			"rc":  rcJ{Success: rc.Success, GasUsed: rc.GasUsed, GasCost: nz(sim.Limbs(rc.GasCost)), Oog: !rc.Success && isOutOfGas(errText)},
 			"eff": x.effOf(c, sh, wsh, rc.ContractAddress), "mid": !last, "st": []acctJ{}, "err": errText, "need": need, "method": rc.Method}
 		lines = append(lines, line)
@@ -1093,6 +1164,29 @@ func (x *Exec) run(s *State, kind string, op Op, caseID int, step int) bool {
 	}
 	s.Last = post
 	return changed
+}
+
+// futureAddr is the address an operation is about to create: the contract address of a top-level
+// deployment, or the address a payer instance sub-deploys a further instance at.
+func (x *Exec) futureAddr(s *State, kind string, op Op, tx *types.Transaction) (res *common.Address) {
+	defer func() {
+		if recover() != nil {
+			res = nil
+		}
+	}()
+	switch {
+	case op.M == "deploy":
+		a := vm.NewVmImpl(s.N.App, s.N.Chain, s.N.Chain.Head, nil, s.N.Cfg).ContractAddr(tx, nil)
+		return &a
+	case kind == "payer" && (op.M == "spawn" || op.M == "spawnlow" || op.M == "payspawn"):
+		att := attachments.ParseCallContractAttachment(tx)
+		if att == nil || len(att.Args) < 1 {
+			return nil
+		}
+		a := wasm.ComputeContractAddr(codes["payer"], []byte{0x01}, att.Args[0])
+		return &a
+	}
+	return nil
 }
 
 // planned is one transaction of the block an operation stands for.
